@@ -295,7 +295,11 @@ func (t *Table) get(offset uint64) storage.Entry {
 
 	vlen := binary.BigEndian.Uint32(t.memory[offset : offset+4])
 	offset += 4
-	e.SetValue(t.memory[offset : offset+uint64(vlen)])
+	// Hand out a private copy: the caller may keep or modify the value while the table
+	// overwrites, compacts or recycles this region.
+	value := make([]byte, vlen)
+	copy(value, t.memory[offset:offset+uint64(vlen)])
+	e.SetValue(value)
 	return e
 }
 
@@ -336,7 +340,11 @@ func (t *Table) Get(hkey uint64) (storage.Entry, error) {
 
 	vlen := binary.BigEndian.Uint32(t.memory[offset : offset+4])
 	offset += 4
-	e.SetValue(t.memory[offset : offset+uint64(vlen)])
+	// Hand out a private copy: the caller may keep or modify the value while the table
+	// overwrites, compacts or recycles this region.
+	value := make([]byte, vlen)
+	copy(value, t.memory[offset:offset+uint64(vlen)])
+	e.SetValue(value)
 
 	return e, nil
 }
